@@ -20,6 +20,20 @@ def run_c18(tier, out):
     out.notes.append(f"TLC Conc.tla (3 readers x {2 if quick else 3} calls, once-cell globals, lock release / open with retry; all "
                      f"interleavings, liveness under weak fairness): {res['distinct']} distinct states; Linearisable, InitOnce, "
                      "NoEarlyResponse, BoundedTries, Termination, OpenSucceedsWhenFree hold")
+    # BatchConc.tla: the parallel re-hash of a batch update (one task per node, a shared map behind a read/write lock):
+    # every schedule of every batch gives the sequential result; a parent that does not wait for its right child is refuted
+    bstates = 0
+    for cfgname, what in (("MC_BatchConc.cfg", "depth 2"), ("MC_BatchConc3.cfg", "depth 3")):
+        r2 = tlc_mc("BatchConc", cfgname, f"mc-batchconc-{what[-1]}", workers=8, timeout=3000)
+        require_mc_ok(r2, f"BatchConc.tla {what}", must_take=["Check", "Read", "Join"])
+        bstates += r2["distinct"]
+    r3 = tlc_mc("BatchConc", "MC_BatchConc_neg.cfg", "mc-batchconc-neg", workers=2, timeout=900, coverage=False)
+    if "Invariant Deterministic is violated" not in r3["out"]:
+        raise ToolError("BatchConc.tla: the variant whose parent task does not wait for its right child was not refuted (vacuous schedule exploration)")
+    out.add(states=bstates)
+    out.notes.append(f"TLC BatchConc.tla (batch_recalculate of the persistent backend as tasks over a locked shared map; every lock acquisition one step; "
+                     f"all schedules of all batches at depth 2 and 3): {bstates} distinct states; Deterministic (= the sequential BRecalc of TreePmOps), "
+                     "NoRacyRead, PairsTogether, Termination hold; the faulty join variant is refuted")
     binary, _ = build_harness("default")
     rows = []
     msg = os.path.join(wd, "poolmsg.json")
